@@ -28,6 +28,7 @@ import (
 	"deps.dev/util/resolve"
 	"deps.dev/util/resolve/dep"
 	"deps.dev/util/resolve/maven"
+	"deps.dev/util/resolve/schema"
 	"deps.dev/util/resolve/version"
 	"deps.dev/util/semver"
 
@@ -528,3 +529,32 @@ func mavenMatch(arg sx.V) sx.V {
 }
 
 var _ = dep.Selector
+
+// maven_schema: universe text in the schema format of util/resolve/schema ->
+// the structured universe used by maven_rec (version attributes are dropped:
+// single registry), or ("err") when the text does not parse.
+func init() { register("maven_schema", mavenSchema) }
+
+func mavenSchema(arg sx.V) sx.V {
+	s, err := schema.New(arg.Str(), resolve.Maven)
+	if err != nil {
+		return sx.L(sx.Sym("err"))
+	}
+	var pkgs []sx.V
+	for _, p := range s.Packages {
+		var vers []sx.V
+		for _, v := range p.Versions {
+			if v.VersionType != resolve.Concrete {
+				continue
+			}
+			var deps []sx.V
+			for _, d := range v.Requirements {
+				t := d.Type
+				deps = append(deps, sx.L(sx.B(d.Name), sx.B(d.Version), dumpDep(&t)))
+			}
+			vers = append(vers, sx.L(sx.B(v.Version), sx.L(deps...)))
+		}
+		pkgs = append(pkgs, sx.L(sx.B(p.Name), sx.L(vers...)))
+	}
+	return sx.L(sx.Sym("ok"), sx.L(pkgs...))
+}
